@@ -18,11 +18,13 @@ def classify(d):
 def run(ctx):
     ctx.trusted_base += [
         "correspondence harness harness/allocator/verif_c07_test.go: real Scheduler.Run/mainLoop/taskLoop + TaskList over a fake StratumProxyInterface under synctest virtual time, quiescence (synctest.Wait) after every event; raw TaskList op sequences (thorough: all sequences of length <= 6 over 6 ops)",
+        "tools/gofacts order.go: the calls of every select case of Scheduler.taskLoop in source order, regenerated into Gen/C07.lean (source_onEnd_before_unlock)",
         "slow destination changes: the same real Scheduler over a proxy whose SetDest blocks until released (harness/allocator/verif_fake_test.go slowGate), so that add / remove / share / time land while the scheduler goroutine is inside SetDest; compared op by op with Model/SchedSlow.lean (goroutine position explicit, newTaskSignal as a one-token channel); a task found both cancelled and expired is ended with either reason by Go's select: those histories are flagged by the model and left out",
         "modelled, not verified: Model/Sched.lean (hand-written from scheduler.go and tasklist.go); the theorems are about this model, the harness compares it op by op with the code",
     ]
     ctx.assumptions += ["events are handled one at a time (the scheduler reaches quiescence between two events — in the slow histories quiescence includes being blocked inside SetDest); races between removal and completion are explored by the concurrent stress in the thorough tier only as far as the outcome is order-independent",
                         "Go >= 1.23 timer semantics inside synctest (a deadline already in the past is seen by the first select)"]
+    L.regen(ctx, ["C07"])
     L.prove(ctx)
     if not L.build_driver(ctx):
         return
